@@ -225,6 +225,14 @@ func mutate(rt *rapid.T, data []byte, other []byte) []byte {
 	}
 }
 
+func bytesOf(b byte, n int) []byte {
+	out := make([]byte, n)
+	for i := range out {
+		out[i] = b
+	}
+	return out
+}
+
 func init() { register("c06.input", evalC06) }
 
 func TestC06(t *testing.T) {
@@ -310,6 +318,34 @@ func TestC06(t *testing.T) {
 		h.Col.Case(nt, data, cl...)
 		if h.Col.WantSample() {
 			h.Col.Sample(map[string]any{"input": string(clip(data)), "class": cl})
+		}
+		h.Fail(rt, "c06.input", c, evalC06(c))
+	})
+
+	// large (valid and damaged) arrays and bulks around the sizes at which growing buffers are re-allocated
+	h.Rapid("large", h.N(600, 6000), func(rt *rapid.T) {
+		var v resp.Value
+		if rapid.Bool().Draw(rt, "array") {
+			v = resp.GenValue(resp.GenOpts{MaxBulk: 8, MaxArity: 6, MaxDepth: 1}).Filter(func(x resp.Value) bool { return x.Kind == resp.Array && len(x.Elems) >= 255 }).Draw(rt, "bigarray")
+		} else {
+			n := rapid.SampledFrom([]int{65533, 65534, 65535, 65536, 65537, 131070, 131072, 131074, 262144, 300000}).Draw(rt, "biglen")
+			v = resp.A(resp.BB(bytesOf(byte(rapid.IntRange(0, 255).Draw(rt, "fill")), n)), resp.I(7), resp.B("tail"))
+		}
+		data := v.Bytes()
+		cls := "large-valid"
+		if rapid.IntRange(0, 2).Draw(rt, "damage") == 0 {
+			data = mutate(rt, data, resp.Cmd("GET", "k").Bytes())
+			cls = "large-mutated"
+		}
+		if len(data) > 1<<20 {
+			data = data[:1<<20]
+		}
+		c := c06Case{Input: data}
+		nt, cl := classify(data)
+		h.Col.Case(nt || cls == "large-valid", data, append(cl, cls)...)
+		if hazardous(data) {
+			h.Fail(rt, "c06.input", c, viaChild(c))
+			return
 		}
 		h.Fail(rt, "c06.input", c, evalC06(c))
 	})
